@@ -261,6 +261,9 @@ type Entry struct {
 	Name      string  `json:"name"`
 	Anonymous bool    `json:"anonymous,omitempty"`
 	Inputs    []Param `json:"inputs"`
+	// Outputs never contribute to the signature / selector / call data (not printed into the Coq term: the
+	// model and the specification are functions of the inputs only)
+	Outputs []Param `json:"outputs,omitempty"`
 }
 
 var etypeCoq = map[string]string{"function": "TyFunction", "constructor": "TyConstructor", "receive": "TyReceive",
@@ -286,6 +289,9 @@ func (e *Entry) Abi() *abi.Entry {
 	ae := &abi.Entry{Type: abi.EntryType(e.Type), Name: e.Name, Anonymous: e.Anonymous, Inputs: abi.ParameterArray{}}
 	for _, p := range e.Inputs {
 		ae.Inputs = append(ae.Inputs, p.T.Param(p.Indexed))
+	}
+	for _, p := range e.Outputs {
+		ae.Outputs = append(ae.Outputs, p.T.Param(p.Indexed))
 	}
 	return ae
 }
@@ -341,6 +347,13 @@ func (e *Entry) Describe() string {
 	a := ""
 	if e.Anonymous {
 		a = " anonymous"
+	}
+	if len(e.Outputs) > 0 {
+		o := make([]string, len(e.Outputs))
+		for i, out := range e.Outputs {
+			o[i] = out.T.Sig()
+		}
+		a += " returns (" + strings.Join(o, ",") + ")"
 	}
 	return e.Type + " " + e.Name + "(" + strings.Join(p, ",") + ")" + a
 }
